@@ -86,6 +86,7 @@ Section Spec.
   (* K_unhidden: a file with a clean unsaved buffer (syntax errors of the saved version hidden) gets a changed saved
      list that contains syntax errors: the full list is pushed *)
   Definition k_unhidden (w : world A) (w' : world A) : bool :=
+    negb (fix_unhidden fx) &&
     existsb (fun f => fmem f (dirty w') && negb (live_has w f) &&
                       negb (errs_eqb (saved_of w f) (saved_of w' f)) && has_syn (saved_of w' f)) (dirty w).
 
@@ -99,6 +100,7 @@ Section Spec.
 
   (* K_watched_dirty: a watched-file event names a file whose unsaved buffer has syntax errors (its live entry is dropped) *)
   Definition k_watched_dirty (w : world A) (a : action A) : bool :=
+    negb (fix_watched fx) &&
     match a with
     | AWatched l => existsb (fun i => fmem (witem_file A i) (dirty w) && live_has w (witem_file A i)) l
     | _ => false
@@ -107,6 +109,7 @@ Section Spec.
   (* K_deleted_require (12): after the action some file's require resolves to a file that is not in the project *)
   Definition k_stale_ref (w' : world A) : bool :=
     let p := pj (sv w') in
+    negb (fix_index fx) &&
     existsb (fun f => match res_of A p f with
                       | Some r => existsb (fun ot => match ot with Some t => negb (fmem t (p_files p)) | None => false end)
                                           (r_refs r)
